@@ -10,8 +10,8 @@ has the creation of the connection (entry of newStreamConn), the queue has the o
 the two a goroutine may be overtaken. Every Register / Enroll call runs on a goroutine of its own, the acceptor is one
 goroutine. So the replay lets a loop register any pending ENROLMENT, and an acceptor hand-over that is behind
 enrolments only, and demands the FIFO order among the acceptor's hand-overs (one producer). The model's queue is put
-into the order the registration reveals (the model run in which the hand-over steps were taken in that order; the
-theorems of Props/Handover are about the pending registrations as a multiset). -/
+into the order the registration reveals by the model's own step `reorder`, so the replay stays a run of the model the
+theorems of Props/Handover quantify over. -/
 def promote (s : Handover.State) (l k : Nat) : Option Handover.State :=
   match s.loops[l]? with
   | none => none
@@ -23,7 +23,7 @@ def promote (s : Handover.State) (l k : Nat) : Option Handover.State :=
       | .register j => !kEnrolled && !s.enrolled.contains j     -- both from the acceptor: FIFO
       | .sentinel => true
     if blocked then none
-    else some (Handover.setLoop s l { x with queue := .register k :: x.queue.erase (.register k) })
+    else some (Handover.step s (.reorder l k))   -- a step of the proved model (Model/Handover.lean)
 
 /-- replays the hand-over events of a real engine life on the hand-over model: the acceptor's hand-overs
 (A:loop:seq), registrations on the loops (E:loop:seq, which must follow the FIFO order of the hand-overs),
